@@ -8,7 +8,7 @@ Driver for the grounding-engine model (`ProbLogModel/GroundAcyclic.lean`).
 `GROUND opts prog calls sched ranks fuel`
   opts  = (opts ac anc ko ka maxarity kd)                       options of the target LogicFormula
   prog  = ((a C*)*)   C = (fact ident prob|- name) | (rule (L*) -|(ident group prob name))   L = (p a) | (n a) | t
-  calls = ((atom label name)*)
+  calls = ((atom label)*)
   sched = ((a i*)*)                                             selection code per goal (missing = source order)
   ranks = ((a r)*)                                              rank function (missing = 0)
 output: `ok <acyclic w.r.t. ranks: t|f> <max rank of a called atom < fuel: t|f> (table (a key)*) <store>` or `error <what>`
@@ -52,7 +52,7 @@ def pProgG : SExp → Option Prog
 
 def pCalls : SExp → Option (List Call)
   | .list cs => cs.mapM (fun (c : SExp) => match c with
-    | .list [.atom a, .atom l, .atom n] => do some { atom := (← a.toNat?), label := pLabel l, name := (← n.toNat?) }
+    | .list [.atom a, .atom l] => do some { atom := (← a.toNat?), label := pLabel l }
     | _ => none)
   | _ => none
 
@@ -78,7 +78,7 @@ def step (_ : Unit) (line : String) : Unit × String :=
       let sched : Sched := fun a => (lookup sc a).getD []
       let rank : Atom → Nat := fun a => ((lookup rk a).getD []).headD 0
       match groundAll P sched fuel calls { store := { opts := o } } with
-      | .ok st =>
+      | .ok (_, st) =>
         "ok " ++ rB (acyclicB P rank) ++ " " ++ rB (calls.all (fun c => rank c.atom < fuel)) ++ " " ++
           renderList ("table" :: st.table.map (fun (a, k) => renderList [toString a, rKey k])) ++ " " ++ rStore st.store
       | .error e => "error " ++ rErr e
